@@ -272,6 +272,46 @@ Theorem C11_interleaved_chains_end_as_alone : forall ps sched chains i init hs t
 Proof. exact interleaved_chains_independent. Qed.
 Print Assumptions C11_interleaved_chains_end_as_alone.
 
+(* ---- several requests for one named URL: retry attempts, HEAD + segments of a parallel download ---- *)
+
+(* every request such an operation makes is a chain of its own from the NAMED authority *)
+Theorem C11_reissued_requests_are_chains_from_the_named_url : forall ps init hs scripts o,
+  In o (reissue ps init hs scripts) -> exists t, In t scripts /\ o = run_chain ps init hs t.
+Proof. exact reissue_each_is_a_chain. Qed.
+Print Assumptions C11_reissued_requests_are_chains_from_the_named_url.
+
+Theorem C11_reissued_requests_start_at_the_named_host : forall ps init hs scripts o,
+  In o (reissue ps init hs scripts) ->
+  exists l, fst o = {| s_host := init; s_hdrs := hs |} :: l.
+Proof. exact reissue_starts_at_named. Qed.
+Print Assumptions C11_reissued_requests_start_at_the_named_host.
+
+(* any other host one of them reaches was permitted by every policy as a redirect from the named
+   one, and receives a sensitive header only as Go's cross-origin rule or AlwaysCopy allows *)
+Theorem C11_reissued_other_hosts_were_permitted : forall ps init hs scripts o s,
+  In o (reissue ps init hs scripts) -> In s (tl (fst o)) ->
+  exists ext, all_permit ps (s_host s) (init :: ext) = true.
+Proof. exact reissue_other_hosts_permitted. Qed.
+Print Assumptions C11_reissued_other_hosts_were_permitted.
+
+Theorem C11_reissued_credentials_only_where_allowed : forall ps init hs scripts o s n k,
+  is_sensitive n = true -> mem_bytes n (always_names ps) = false ->
+  In o (reissue ps init hs scripts) -> In s (tl (fst o)) -> In (n, k) (s_hdrs s) -> k <> 0 ->
+  s_host s = init \/ should_copy init (s_host s) = true.
+Proof. exact reissue_sensitive. Qed.
+Print Assumptions C11_reissued_credentials_only_where_allowed.
+
+(* the design of seeded change c-m1 (segments fetched from where the HEAD ended up) delivers the
+   caller's Authorization to a host only learned from a redirect, where the code delivers none *)
+Theorem C11_reissue_from_final_url_refuted :
+  exists ps init hs scripts o s,
+    In o (reissue_from_final ps init hs scripts) /\ In s (fst o) /\
+    In (bs "Authorization", 1) (s_hdrs s) /\
+    s_host s <> init /\ should_copy init (s_host s) = false /\
+    (forall o' s', In o' (reissue ps init hs scripts) -> In s' (fst o') ->
+                   s_host s' <> init -> In (bs "Authorization", 0) (s_hdrs s')).
+Proof. exact reissue_from_final_refuted. Qed.
+
 (* ---- the tie to the source text (gosync, regenerated on every run) ---- *)
 
 (* the model's decision of every policy value is the boolean function translated from the body of
